@@ -38,17 +38,14 @@ PATTERNS = ["*.qchemlog"]
     "qchemlog",
     [
         "atcoords",
-        "atmasses",
         "atnums",
         "energy",
-        "g_rot",
         "mo",
         "lot",
         "obasis_name",
-        "run_type",
         "extra",
     ],
-    ["athessian"],
+    ["athessian", "atmasses", "g_rot", "run_type"],
 )
 def load_one(lit: LineIterator) -> dict:
     """Do not edit this docstring. It will be overwritten."""
